@@ -99,6 +99,10 @@ F_Parsimony(V, args, res) ==
       tipsets == [t \in V.tips |-> {args.tips[i][2] : i \in {j \in 1..Len(args.tips) : byname[j] = V.nm[t]}}]
       st      == [n \in V.nodes |-> SeqRange(res.states[n])]
   IN  F_ParsCore(V, States, tipsets, args.algo, res.steps, st, TRUE)
+      \* the returned name -> states map says the same as the node comments
+      \cup (IF "bymap" \in DOMAIN res
+            THEN Fail("ReturnedMapAgreesWithNodeStates", \A n \in Inner(V) : SeqRange(res.bymap[n]) = st[n])
+            ELSE {})
 
 \* sequence variant: args.sets[t][j] = allowed states of tip (by rank in args.names) at site j;
 \* res.steps[j]; res.states[n][j] = reported states of node n at site j; res.single[j] = what the
